@@ -498,6 +498,21 @@ func init() {
 				}
 			}
 		}
+		// a history in which every event carries a 16 KiB transaction (more than a megabyte per hundred events in the
+		// database): clean stop and every 40th (thorough: 6th) crash point
+		{
+			base := "bigtx:3:130:16"
+			w := measure(base)
+			total[base] = w
+			items = append(items, CrashItem{Base: base, Clean: true})
+			st := 40
+			if th {
+				st = 6
+			}
+			for p := 7; p <= w; p += st {
+				items = append(items, CrashItem{Base: base, From: p, To: p + 1})
+			}
+		}
 		// the same crash points with fast-sync enabled at the restart (bootstrap, then CatchingUp and one
 		// Node.fastForward): 2 = no peer answers, 1 = peers as they are
 		fsStride := 3
